@@ -79,6 +79,7 @@ type zzC0102Cfg struct {
 	Svc     string        `json:"svc"`
 	Client  zzC0102Client `json:"client"`
 	AAAAOff bool          `json:"aaaaOff"`
+	Cache   bool          `json:"cache"`
 }
 
 type zzC0102Req struct {
@@ -89,7 +90,9 @@ type zzC0102Req struct {
 
 // zzC0102RR is an abstract resource record of an upstream answer.
 type zzC0102RR struct {
-	T  string   `json:"t"`
+	T string `json:"t"`
+	// O is the owner name; empty = the question name.
+	O  []string `json:"o"`
 	N  []string `json:"n"`
 	A  string   `json:"a"`
 	H4 []string `json:"h4"`
@@ -306,17 +309,20 @@ func zzC0102Hdr(name string, t uint16) (h dns.RR_Header) {
 	return dns.RR_Header{Name: name, Rrtype: t, Class: dns.ClassINET, Ttl: zzC0102TTL}
 }
 
-// zzC0102RRs renders an abstract answer section for the question name.  CNAME
-// chains are rendered the way a resolver returns them: each record is owned
-// by the previous target.
+// zzC0102RRs renders an abstract answer section for the question name.  Every
+// record is owned by its explicit owner name (empty = the question name), in
+// exactly the given order.
 func zzC0102RRs(qname string, ans []zzC0102RR) (rrs []dns.RR) {
-	owner := qname
 	for _, a := range ans {
+		owner := qname
+		if len(a.O) > 0 {
+			owner = strings.Join(a.O, ".") + "."
+		}
+
 		switch a.T {
 		case "CNAME":
 			tgt := strings.Join(a.N, ".") + "."
 			rrs = append(rrs, &dns.CNAME{Hdr: zzC0102Hdr(owner, dns.TypeCNAME), Target: tgt})
-			owner = tgt
 		case "A":
 			rrs = append(rrs, &dns.A{Hdr: zzC0102Hdr(owner, dns.TypeA), A: net.ParseIP(zzC0102Addrs[a.A]).To4()})
 		case "AAAA":
